@@ -1,5 +1,6 @@
 import NauyacaVerif.Srv.SegProof
 import NauyacaVerif.Srv.ConnProof
+import NauyacaVerif.Srv.PumpProof
 import NauyacaVerif.Gen.Params
 
 /-! # C07  Outcome is independent of read segmentation; handlers run at most once -/
@@ -33,4 +34,14 @@ theorem at_most_once (cfg : Cfg) (evs : List Ev) : (run cfg evs).hcalls + (run c
 theorem trailing_ignored_gemini (cfg : Cfg) (s : St) (extra : Bytes)
     (h : s.lost = true ∨ (s.phase ≠ .awaitLine ∧ s.phase ≠ .awaitTitan)) : step cfg s (.data extra) = s :=
   dead_data cfg s extra h
+
+/-- PyOpenSSL backend: however the TLS byte stream is cut into TCP reads and records, at most one invocation -/
+theorem pump_at_most_once (cfg : Cfg) (evs : List PEv) (i : St) (hi : (pumpRun cfg evs).inner = some i) :
+    i.hcalls + i.ucalls ≤ 1 := ((pumpRun_pinv cfg evs).innerInv i hi).1.once
+
+/-- the pump hands the inner protocol plaintext in pieces of at most 8192 bytes; by `seg_indep` that re-chunking
+    is invisible: feeding the pieces equals feeding the whole record -/
+theorem pump_rechunk (cfg : Cfg) (c : Bytes) (cs : List Bytes) :
+    Eqv (feedAll cfg {} (c :: cs)) (step cfg {} (.data (c ++ cs.flatten))) := Srv.seg_indep cfg {} c cs
+
 end NauyacaVerif.C07
